@@ -156,7 +156,10 @@ func (sn c30Snap) connected(i int) bool {
 	return sn.nodes[i].present && (sn.nodes[i].state == ingoing || sn.nodes[i].state == outgoing)
 }
 
-type c30Viol struct{ key, desc string }
+type c30Viol struct {
+	key, desc string
+	level     uint32 // how far the invariant is exceeded (slot invariants: the larger of counter and count)
+}
 
 // violated returns the violated state invariants in a fixed order.
 func (sn c30Snap) violated() []c30Viol {
@@ -172,20 +175,20 @@ func (sn c30Snap) violated() []c30Viol {
 			cntOut++
 		}
 		if sn.nodes[i].rep < BannedThresholdValue {
-			out = append(out, c30Viol{"B1:" + string(c30Peers[i]), fmt.Sprintf("non-reserved peer %s is connected with reputation %d < threshold %d", string(c30Peers[i]), sn.nodes[i].rep, BannedThresholdValue)})
+			out = append(out, c30Viol{"B1:" + string(c30Peers[i]), fmt.Sprintf("non-reserved peer %s is connected with reputation %d < threshold %d", string(c30Peers[i]), sn.nodes[i].rep, BannedThresholdValue), 0})
 		}
 	}
 	if sn.numIn > sn.maxIn || cntIn > sn.maxIn {
-		out = append(out, c30Viol{"S1:in", fmt.Sprintf("inbound slots exceed the maximum: numIn=%d, connected non-reserved inbound peers=%d, maxIn=%d", sn.numIn, cntIn, sn.maxIn)})
+		out = append(out, c30Viol{"S1:in", fmt.Sprintf("inbound slots exceed the maximum: numIn=%d, connected non-reserved inbound peers=%d, maxIn=%d", sn.numIn, cntIn, sn.maxIn), max(sn.numIn, cntIn)})
 	}
 	if sn.numOut > sn.maxOut || cntOut > sn.maxOut {
-		out = append(out, c30Viol{"S1:out", fmt.Sprintf("outbound slots exceed the maximum: numOut=%d, connected non-reserved outbound peers=%d, maxOut=%d", sn.numOut, cntOut, sn.maxOut)})
+		out = append(out, c30Viol{"S1:out", fmt.Sprintf("outbound slots exceed the maximum: numOut=%d, connected non-reserved outbound peers=%d, maxOut=%d", sn.numOut, cntOut, sn.maxOut), max(sn.numOut, cntOut)})
 	}
 	if sn.numIn != cntIn {
-		out = append(out, c30Viol{"S2:in", fmt.Sprintf("numIn=%d but %d non-reserved peers are connected inbound", sn.numIn, cntIn)})
+		out = append(out, c30Viol{"S2:in", fmt.Sprintf("numIn=%d but %d non-reserved peers are connected inbound", sn.numIn, cntIn), 0})
 	}
 	if sn.numOut != cntOut {
-		out = append(out, c30Viol{"S2:out", fmt.Sprintf("numOut=%d but %d non-reserved peers are connected outbound", sn.numOut, cntOut)})
+		out = append(out, c30Viol{"S2:out", fmt.Sprintf("numOut=%d but %d non-reserved peers are connected outbound", sn.numOut, cntOut), 0})
 	}
 	return out
 }
@@ -325,6 +328,23 @@ func c30Apply(s *c30State, o c30Op) string {
 			for _, w := range was {
 				if w.key == v.key {
 					already = true
+					if v.level > w.level {
+						// the invariant was already broken (possibly by a listed finding) and this operation
+						// takes one more slot: a new violation of its own
+						// (unless it is again a connected reserved peer that lost its reservation: same shape as
+						// when that happens with free slots)
+						var unres uint32
+						for i := range c30Peers {
+							if pre.reserved[i] && !post.reserved[i] && post.connected(i) && (post.nodes[i].state == ingoing) == (v.key == "S1:in") {
+								unres++
+							}
+						}
+						sig := o.kind + ":" + v.key + ":slots-exceeded-further"
+						if unres > 0 && v.level-w.level <= unres {
+							sig = c30InvSig(o, v.key, pre, post)
+						}
+						s.softf(sig, "%s: %s (level %d before the operation); before: %s; after: %s", name, v.desc, w.level, pre, post)
+					}
 				}
 			}
 			if !already {
